@@ -64,6 +64,17 @@ pub fn eval(op: &str, a: &[&str]) -> Option<String> {
 const TOKENS: [&str; 13] = ["cap_chown", "cap_kill", "all", "cap_bogus", ",", "=", "+", "-", "e", "i", "p", "x", " "];
 /// reduced alphabet for the longest layer of the thorough tier
 const TOKENS7: [&str; 9] = ["cap_chown", "all", "cap_bogus", ",", "=", "+", "e", "x", " "];
+/// non-ASCII tokens: names with a code point that a Unicode case mapping sends to an ASCII letter
+/// (U+0131 dotless i ↦ I, U+017F long s ↦ S, U+00DF ß ↦ SS, U+FB06 ﬆ ↦ ST) or that lower-cases to one
+/// (U+212A Kelvin sign), White_Space code points (U+00A0, U+3000, U+0085), a blank that is not White_Space
+/// (U+200B), a non-ASCII letter, a full-width '=' (U+FF1D)
+const UTOKENS: [&str; 11] = [
+    "cap_k\u{131}ll", "cap_\u{17f}etuid", "cap_\u{212a}ill", "cap_f\u{df}etid", "cap_net_broadca\u{fb06}", "\u{a0}", "\u{3000}",
+    "\u{85}", "\u{e9}", "\u{ff1d}", "\u{200b}",
+];
+/// reduced mixed alphabet for the longer layers with non-ASCII tokens
+const MIXED: [&str; 12] =
+    ["cap_chown", "cap_k\u{131}ll", "all", ",", "=", "+", "e", "x", " ", "\u{a0}", "\u{e9}", "\u{ff1d}"];
 
 /// the Linux capability names (linux/capability.h), written independently of the crate's table
 const NAMES: [&str; 41] = [
@@ -76,26 +87,80 @@ const NAMES: [&str; 41] = [
     "cap_perfmon", "cap_bpf", "cap_checkpoint_restore",
 ];
 
-/// every string of exactly `len` tokens over `alpha`, sharded by a running counter
-fn layer(ctx: &mut Ctx, alpha: &[&str], len: usize, counter: &mut u64) {
+/// every string of exactly `len` tokens over `alpha`, sharded by a running counter; with `non_ascii_only` the
+/// strings without a non-ASCII character are skipped (the enumeration over the ASCII alphabet has them)
+fn layer(ctx: &mut Ctx, alpha: &[&str], len: usize, counter: &mut u64, non_ascii_only: bool) {
     let (si, sn) = ctx.shard;
     let k = alpha.len();
     let total = (k as u64).pow(len as u32);
     let mut buf = String::new();
     for idx in 0..total {
-        let mine = *counter % sn == si;
-        *counter += 1;
-        if !mine {
-            continue;
-        }
         buf.clear();
         let mut x = idx;
         for _ in 0..len {
             buf.push_str(alpha[(x % k as u64) as usize]);
             x /= k as u64;
         }
+        if non_ascii_only && buf.is_ascii() {
+            continue;
+        }
+        let mine = *counter % sn == si;
+        *counter += 1;
+        if !mine {
+            continue;
+        }
         ctx.req(&format!("caps {}", hx(buf.as_bytes())));
     }
+}
+
+/// White_Space code points beyond ASCII (Unicode PropList.txt), written independently of the model
+const UNI_WS: [char; 19] = [
+    '\u{85}', '\u{a0}', '\u{1680}', '\u{2000}', '\u{2001}', '\u{2002}', '\u{2003}', '\u{2004}', '\u{2005}', '\u{2006}',
+    '\u{2007}', '\u{2008}', '\u{2009}', '\u{200a}', '\u{2028}', '\u{2029}', '\u{202f}', '\u{205f}', '\u{3000}',
+];
+/// blanks / invisibles that are NOT White_Space
+const NOT_WS: [char; 8] = ['\u{200b}', '\u{200c}', '\u{180e}', '\u{feff}', '\u{2060}', '\u{1c}', '\u{1f}', '\u{ad}'];
+
+/// replace one character of a name by a non-ASCII look-alike / case-mapping relative, or decorate it
+fn confuse(rng: &mut Rng, s: &str) -> String {
+    let cs: Vec<char> = s.chars().collect();
+    if cs.is_empty() {
+        return "\u{e9}".to_string();
+    }
+    let pos = rng.below(cs.len() as u64) as usize;
+    let c = cs[pos];
+    let sub: String = match (c.to_ascii_lowercase(), rng.below(4)) {
+        ('i', 0 | 1) => "\u{131}".into(),  // dotless i: to_uppercase = I
+        ('i', _) => "\u{130}".into(),      // I with dot: to_lowercase = i + U+0307
+        ('s', 0 | 1) => "\u{17f}".into(),  // long s: to_uppercase = S
+        ('s', _) => "\u{df}".into(),       // sharp s: to_uppercase = SS
+        ('k', _) => "\u{212a}".into(),     // Kelvin sign: to_lowercase = k
+        ('a', 0) => "\u{430}".into(),      // Cyrillic a
+        ('a', 1) => "\u{ff41}".into(),     // full-width a
+        ('a', _) => "\u{e5}".into(),       // a with ring (U+212B Angstrom lower-cases to it)
+        ('e', 0) => "\u{435}".into(),      // Cyrillic e
+        ('e', _) => "\u{e9}".into(),
+        ('c', _) => "\u{441}".into(),      // Cyrillic es
+        ('p', _) => "\u{440}".into(),      // Cyrillic er
+        ('o', _) => "\u{3bf}".into(),      // Greek omicron
+        ('t', 0 | 1) if pos > 0 && cs[pos - 1].to_ascii_lowercase() == 's' => {
+            // "st" -> ligature U+FB06 / U+FB05 (to_uppercase = ST): replaces two characters
+            let lig = if rng.chance(1, 2) { '\u{fb06}' } else { '\u{fb05}' };
+            let mut out: String = cs[..pos - 1].iter().collect();
+            out.push(lig);
+            out.extend(cs[pos + 1..].iter());
+            return out;
+        }
+        ('_', _) => "\u{ff3f}".into(),     // full-width low line
+        (_, 0) => format!("{}\u{301}", c),  // combining acute accent after the letter
+        (_, 1) => char::from_u32(0xff00 + (c as u32 - 0x20)).map(|f| f.to_string()).unwrap_or_else(|| c.to_string()),
+        (_, 2) => format!("{}\u{200d}", c), // zero width joiner
+        _ => "\u{1d4b8}".into(),            // a supplementary-plane letter (4 UTF-8 bytes)
+    };
+    let mut out: String = cs[..pos].iter().collect();
+    out.push_str(&sub);
+    out.extend(cs[pos + 1..].iter());
+    out
 }
 
 fn recase(rng: &mut Rng, s: &str) -> String {
@@ -116,13 +181,15 @@ fn recase(rng: &mut Rng, s: &str) -> String {
 fn rand_ws(rng: &mut Rng) -> String {
     let n = if rng.chance(1, 5) { 2 } else { 1 };
     (0..n)
-        .map(|_| match rng.below(40) {
+        .map(|_| match rng.below(44) {
             0..=24 => ' ',
             25..=30 => '\t',
             31..=35 => '\n',
             36 | 37 => '\r',
             38 => '\x0c',
-            _ => '\x0b',
+            39 => '\x0b',
+            40..=42 => *rng.pick(&UNI_WS),
+            _ => *rng.pick(&NOT_WS),
         })
         .collect()
 }
@@ -145,14 +212,29 @@ fn rand_clause(rng: &mut Rng) -> String {
                     3 => "chown".to_string(),
                     _ => rng.pick(&NAMES).to_string(),
                 };
-                out.push_str(&recase(rng, &name));
+                let name = recase(rng, &name);
+                // a non-ASCII character inside a name (after re-casing, so that it survives)
+                out.push_str(&if rng.chance(1, 30) { confuse(rng, &name) } else { name });
             }
         }
+    }
+    if out.eq_ignore_ascii_case("all") && rng.chance(1, 20) {
+        out = confuse(rng, &out);
     }
     let g = 1 + rng.below(3);
     for j in 0..g {
         // a clause without a name list is only legal with '='
         let op = if j == 0 && out.is_empty() && rng.chance(9, 10) { '=' } else { *rng.pick(&['=', '+', '-']) };
+        // rarely a non-ASCII relative of the operator: full-width = + -, minus sign, small / superscript forms
+        let op = if rng.chance(1, 80) {
+            match op {
+                '=' => *rng.pick(&['\u{ff1d}', '\u{fe66}', '\u{207c}']),
+                '+' => *rng.pick(&['\u{ff0b}', '\u{fe62}', '\u{207a}']),
+                _ => *rng.pick(&['\u{ff0d}', '\u{2212}', '\u{2010}', '\u{ad}']),
+            }
+        } else {
+            op
+        };
         out.push(op);
         let nf = match rng.below(16) {
             0 => 0,
@@ -161,9 +243,11 @@ fn rand_clause(rng: &mut Rng) -> String {
             _ => 3,
         };
         for _ in 0..nf {
-            out.push(match rng.below(60) {
+            out.push(match rng.below(80) {
                 0 => 'x',
                 1 => 'E',
+                // non-ASCII relatives of the flags: dotless i, Cyrillic e / er, full-width e / p, e acute
+                2 => *rng.pick(&['\u{131}', '\u{435}', '\u{440}', '\u{ff45}', '\u{ff50}', '\u{e9}', '\u{2170}']),
                 _ => *rng.pick(&['e', 'i', 'p']),
             });
         }
@@ -171,9 +255,10 @@ fn rand_clause(rng: &mut Rng) -> String {
     out
 }
 
-const NOISE: [&str; 24] = [
+const NOISE: [&str; 32] = [
     "=", "+", "-", ",", " ", "\t", "\n", "e", "i", "p", "x", "E", "_", "all", "cap_", "cap_kill", "\0", "\x1f", "\x7f", "é",
-    "\u{a0}", "\u{131}", "\u{17f}", "\u{85}",
+    "\u{a0}", "\u{131}", "\u{17f}", "\u{85}", "\u{3000}", "\u{2028}", "\u{200b}", "\u{ff0c}", "\u{ff1d}", "\u{301}", "\u{10ffff}",
+    "\u{212a}",
 ];
 
 fn rand_text(rng: &mut Rng) -> String {
@@ -182,7 +267,7 @@ fn rand_text(rng: &mut Rng) -> String {
         let n = 6 + rng.below(14);
         return (0..n)
             .map(|_| {
-                let t = *rng.pick(&TOKENS);
+                let t = if rng.chance(1, 12) { *rng.pick(&UTOKENS) } else { *rng.pick(&TOKENS) };
                 if rng.chance(1, 6) { recase(rng, t) } else { t.to_string() }
             })
             .collect();
@@ -228,12 +313,19 @@ fn rand_text(rng: &mut Rng) -> String {
 }
 
 /// the strings of the crate's own unit tests and of the spec's comments
-const FIXED: [&str; 40] = [
+const FIXED: [&str; 64] = [
     "", " ", "cap_chown", "+eip", "-eip", "cap_chown+-p", "cap_chown=-p", "cap_chown+y", "cap_noexist+p", "cap_chown=p",
     "cap_chown+p", "cap_chown+ie", "=e cap_chown-e", "=e", "all=e", "=e +p", "=e -p", "cap_chown=e +p", "=", "cap_chown+",
     "cap_kill=e-", "all,cap_chown=e", "cap_kill,ALL+p", ",=e", "cap_chown,=e", "cap_chown,,cap_kill=e", "Cap_Chown=e",
     "CAP_CHOWN,cap_kill+ep-i\tALL=e\n", "=e\x0b=p", "\x0b=e", "cap_chown=E", "ALL", "all", "aLl+p", "=e  =p", "\t=e\r\n",
     "cap_chown =e", "cap_chown= e", "cap_sys_admin=pe", "=eee",
+    // non-ASCII: names that a Unicode case mapping turns into a capability name (the defect fixed by e20037b) …
+    "cap_k\u{131}ll=ep", "cap_\u{17f}etuid=ep", "cap_net_broadca\u{fb06}=p", "cap_sy\u{17f}_admin,cap_kill=e", "CAP_K\u{131}LL=e",
+    "cap_\u{212a}ill=e", "cap_f\u{df}etid=e", "cap_k\u{130}ll=e", "\u{ff41}ll=e", "a\u{131}l=e", "cap_chown\u{301}=e", "\u{e9}", "\u{e9}=e",
+    // … operators / flags / commas that are not the ASCII characters …
+    "cap_chown\u{ff1d}e", "cap_chown=\u{435}", "cap_chown=e\u{131}", "cap_chown\u{ff0c}cap_kill=e",
+    // … White_Space beyond ASCII as separator / padding, and blanks that are not White_Space
+    "=e\u{a0}=p", "cap_chown=e\u{3000}", "\u{85}=e", "\u{2003}", "=e\u{a0}+p", "=e\u{200b}=p", "\u{feff}=e",
 ];
 
 pub fn gen(ctx: &mut Ctx) {
@@ -248,10 +340,20 @@ pub fn gen(ctx: &mut Ctx) {
     let mut counter = 0u64;
     let max = ctx.q(5, 6);
     for len in 0..=max {
-        layer(ctx, &TOKENS, len, &mut counter);
+        layer(ctx, &TOKENS, len, &mut counter, false);
     }
     if ctx.thorough {
-        layer(ctx, &TOKENS7, 7, &mut counter);
+        layer(ctx, &TOKENS7, 7, &mut counter, false);
+    }
+    // the alphabet enlarged by the non-ASCII tokens: complete up to 3 (quick) / 4 (thorough) tokens, then one or two more
+    // layers over a reduced mixed alphabet (strings without a non-ASCII character are in the enumeration above)
+    let big: Vec<&str> = TOKENS.iter().chain(UTOKENS.iter()).copied().collect();
+    let umax = ctx.q(3, 4);
+    for len in 1..=umax {
+        layer(ctx, &big, len, &mut counter, true);
+    }
+    for len in umax + 1..=ctx.q(4, 6) {
+        layer(ctx, &MIXED, len, &mut counter, true);
     }
     // seeded longer strings: grammar-shaped clauses with case variants, all whitespace kinds, defects
     let n = ctx.q(100_000u64, 1_000_000u64).div_ceil(sn);
